@@ -110,15 +110,13 @@ func lockCovers(r *Run, f *ssa.Function, addr ssa.Value, at ssa.Instruction, dep
 	return true, ""
 }
 
-var lfCache = map[string]*LockFacts{}
-
 func lockFactsCached(r *Run, f *ssa.Function, sp core.Spec) *LockFacts {
-	k := fmt.Sprintf("%p/%p/%s", r, f, sp.String(f))
-	if lf, ok := lfCache[k]; ok {
+	k := fmt.Sprintf("%p/%s", f, sp.String(f))
+	if lf, ok := r.lfMemo[k]; ok {
 		return lf
 	}
 	lf := lockFacts(r, f, sp)
-	lfCache[k] = lf
+	r.lfMemo[k] = lf
 	return lf
 }
 
